@@ -328,3 +328,365 @@ Qed.
    options of the inputs: forgetting the options commutes with merging *)
 Lemma merge_o_erase fs c : map erase_rf (merge_files_o fs c) = merge_files (map erase_ifile fs) c.
 Proof. unfold merge_files_o, merge_files. now rewrite convert_o_erase, build_state_o_erase. Qed.
+
+(* ================================================================ one-to-one matchings *)
+
+(* [matched R l1 l2]: the elements of l1 can be paired one-to-one with the elements of l2
+   such that every pair is in R (l1 rearranged is pointwise R-related to l2) *)
+Section Matched.
+  Context {A B : Type}.
+  Variable R : A -> B -> Prop.
+
+  Definition matched (l1 : list A) (l2 : list B) : Prop :=
+    exists l, Permutation l1 l /\ Forall2 R l l2.
+
+  Lemma matched_nil : matched [] [].
+  Proof. exists []. split; constructor. Qed.
+
+  Lemma matched_nil_inv l1 : matched l1 [] -> l1 = [].
+  Proof.
+    intros (l & Hp & Hf). inversion Hf; subst. now apply Permutation_sym, Permutation_nil in Hp.
+  Qed.
+
+  Lemma matched_cons a b l1 l2 : R a b -> matched l1 l2 -> matched (a :: l1) (b :: l2).
+  Proof.
+    intros Hab (l & Hp & Hf). exists (a :: l). split; [now apply perm_skip|now constructor].
+  Qed.
+
+  Lemma matched_app l1 l2 l3 l4 : matched l1 l2 -> matched l3 l4 -> matched (l1 ++ l3) (l2 ++ l4).
+  Proof.
+    intros (l & Hp & Hf) (l' & Hp' & Hf'). exists (l ++ l'). split.
+    - now apply Permutation_app.
+    - now apply Forall2_app.
+  Qed.
+
+  Lemma matched_perm_l l1 l1' l2 : Permutation l1 l1' -> matched l1 l2 -> matched l1' l2.
+  Proof.
+    intros H (l & Hp & Hf). exists l. split; [|exact Hf].
+    eapply Permutation_trans; [apply Permutation_sym, H|exact Hp].
+  Qed.
+
+  Lemma Forall2_perm_r l l2 l2' :
+    Forall2 R l l2 -> Permutation l2 l2' -> exists l', Permutation l l' /\ Forall2 R l' l2'.
+  Proof.
+    intros Hf Hp. revert l Hf. induction Hp as [|x l2 l2' Hp IH|x y l2|l2 l2' l2'' Hp1 IH1 Hp2 IH2]; intros l Hf.
+    - exists l. split; [apply Permutation_refl|exact Hf].
+    - inversion Hf as [|a ? l0 ? Hax Hf0]; subst. destruct (IH l0 Hf0) as (l' & Hp' & Hf').
+      exists (a :: l'). split; [now apply perm_skip|now constructor].
+    - inversion Hf as [|a ? l0 ? Hay Hf0]; subst. inversion Hf0 as [|b ? l1 ? Hbx Hf1]; subst.
+      exists (b :: a :: l1). split; [apply perm_swap|]. constructor; [exact Hbx|]. now constructor.
+    - destruct (IH1 l Hf) as (l' & Hp' & Hf'). destruct (IH2 l' Hf') as (l'' & Hp'' & Hf'').
+      exists l''. split; [eapply Permutation_trans; eauto|exact Hf''].
+  Qed.
+
+  Lemma matched_perm_r l1 l2 l2' : Permutation l2 l2' -> matched l1 l2 -> matched l1 l2'.
+  Proof.
+    intros H (l & Hp & Hf). destruct (Forall2_perm_r _ _ _ Hf H) as (l' & Hp' & Hf').
+    exists l'. split; [eapply Permutation_trans; eauto|exact Hf'].
+  Qed.
+
+  Lemma matched_app_inv_r l1 l2a l2b :
+    matched l1 (l2a ++ l2b) ->
+    exists la lb, Permutation l1 (la ++ lb) /\ matched la l2a /\ matched lb l2b.
+  Proof.
+    intros (l & Hp & Hf). apply Forall2_app_inv_r in Hf as (la & lb & Ha & Hb & ->).
+    exists la, lb. split; [exact Hp|]. split; [exists la|exists lb]; (split; [apply Permutation_refl|assumption]).
+  Qed.
+
+  Lemma matched_in_r l1 l2 b : matched l1 l2 -> In b l2 -> exists a, In a l1 /\ R a b.
+  Proof.
+    intros (l & Hp & Hf) Hb. revert Hb. induction Hf as [|a b' l l2 Hab Hf IH] in l1, Hp |- *; intros Hb; [destruct Hb|].
+    destruct Hb as [->|Hb].
+    - exists a. split; [|exact Hab]. eapply Permutation_in; [apply Permutation_sym, Hp|now left].
+    - destruct (IH l (Permutation_refl _) Hb) as (a0 & Ha0 & Hr). exists a0. split; [|exact Hr].
+      eapply Permutation_in; [apply Permutation_sym, Hp|now right].
+  Qed.
+
+  Lemma matched_in_l l1 l2 a : matched l1 l2 -> In a l1 -> exists b, In b l2 /\ R a b.
+  Proof.
+    intros (l & Hp & Hf) Ha. apply (Permutation_in _ Hp) in Ha. clear Hp.
+    induction Hf as [|a' b l l2 Hab Hf IH]; [destruct Ha|].
+    destruct Ha as [->|Ha].
+    - exists b. split; [now left|exact Hab].
+    - destruct (IH Ha) as (b0 & Hb0 & Hr). exists b0. split; [now right|exact Hr].
+  Qed.
+
+  Lemma matched_length l1 l2 : matched l1 l2 -> length l1 = length l2.
+  Proof.
+    intros (l & Hp & Hf). rewrite (Permutation_length Hp). clear Hp.
+    induction Hf as [|a b l l2' Hab Hf IH]; cbn [length]; [reflexivity|now rewrite IH].
+  Qed.
+End Matched.
+
+Lemma Forall2_map_r_mono {A B C} (R : A -> B -> Prop) (f g : C -> B) l es :
+  (forall a x, R a (f x) -> R a (g x)) -> Forall2 R l (map f es) -> Forall2 R l (map g es).
+Proof.
+  intros H. revert l. induction es as [|x es IH]; intros l Hf; cbn [map] in *.
+  - inversion Hf. constructor.
+  - inversion Hf as [|a ? l0 ? Hax Hf0]; subst. constructor; [now apply H|now apply IH].
+Qed.
+
+Lemma matched_map_r_mono {A B C} (R : A -> B -> Prop) (f g : C -> B) l1 es :
+  (forall a x, R a (f x) -> R a (g x)) -> matched R l1 (map f es) -> matched R l1 (map g es).
+Proof.
+  intros H (l & Hp & Hf). exists l. split; [exact Hp|]. eapply Forall2_map_r_mono; eauto.
+Qed.
+
+Lemma matched_mono {A B} (R R' : A -> B -> Prop) l1 l2 :
+  (forall a b, R a b -> R' a b) -> matched R l1 l2 -> matched R' l1 l2.
+Proof.
+  intros H (l & Hp & Hf). exists l. split; [exact Hp|]. clear Hp.
+  induction Hf as [|a b l l2' Hab Hf IH]; constructor; [now apply H|exact IH].
+Qed.
+
+(* ================================================================ entry identities with the options of their batch *)
+
+Definition tident := (ident * vopts)%type.
+
+Definition tag (r : route_t) (h : header) (o : vopts) (e : entry) : tident := (mkid r h e, o).
+
+(* an input entry, tagged with the options its batch was validated with (file's and batch's own) *)
+Definition tids_ibatch (r : route_t) (fopts : vopts) (ib : ibatcho) : list tident :=
+  map (tag r (ib_header (ibo_batch ib)) (batch_in_opts fopts ib)) (ib_entries (ibo_batch ib)).
+Definition tids_ifile (f : ifileo) : list tident :=
+  flat_map (tids_ibatch (fo_route f) (fo_opts f)) (fo_batches f).
+Definition tids_in (fs : list ifileo) : list tident := flat_map tids_ifile fs.
+
+Definition tids_obatch (r : route_t) (b : obatcho) : list tident :=
+  map (tag r (obo_header b) (obo_opts b)) (map snd (obo_entries b)).
+Definition tids_obatches (r : route_t) (bs : list obatcho) : list tident := flat_map (tids_obatch r) bs.
+Definition tids_ofile (o : ofileo) : list tident := tids_obatches (ofo_route o) (ofo_batches o).
+Definition tids_state (st : list ofileo) : list tident := flat_map tids_ofile st.
+
+(* an output entry, tagged with the options of the output batch that holds it *)
+Definition tids_rbatch (r : route_t) (rb : rbatcho) : list tident :=
+  map (tag r (rbo_header rb) (rbo_opts rb)) (rbo_entries rb).
+Definition tids_rbatches (r : route_t) (bs : list rbatcho) : list tident := flat_map (tids_rbatch r) bs.
+Definition tids_rfile (g : rfileo) : list tident := tids_rbatches (rfo_route g) (rfo_batches g).
+Definition tids_out (gs : list rfileo) : list tident := flat_map tids_rfile gs.
+
+(* same entry identity, at least the options *)
+Definition tle (a b : tident) : Prop := fst a = fst b /\ osub (snd a) (snd b).
+
+Lemma tids_obatches_app r a b : tids_obatches r (a ++ b) = tids_obatches r a ++ tids_obatches r b.
+Proof. unfold tids_obatches. apply flat_map_app. Qed.
+
+(* ---------------------------------------------------------------- outFile.add *)
+
+Lemma place_o_matched r h o e bs : forall T,
+  matched tle T (tids_obatches r bs) ->
+  matched tle (tag r h o e :: T) (tids_obatches r (place_o h o e bs)).
+Proof.
+  induction bs as [|b rest IH]; intros T HT; cbn [place_o].
+  - cbn in HT. apply matched_nil_inv in HT. subst T. cbn.
+    apply matched_cons; [|apply matched_nil]. split; [reflexivity|apply osub_refl].
+  - cbn [tids_obatches flat_map] in HT. fold (tids_obatches r rest) in HT.
+    apply matched_app_inv_r in HT as (la & lb & Hp & Ha & Hb).
+    destruct (header_equal (obo_header b) h && negb (tm_contains (e_trace e) (obo_entries b))) eqn:Hc.
+    + apply andb_prop in Hc as [Hh Hn]. apply negb_true_iff in Hn. apply header_equal_hkey in Hh.
+      cbn [tids_obatches flat_map]. fold (tids_obatches r rest).
+      eapply matched_perm_l; [apply Permutation_sym; change (tag r h o e :: T) with ([tag r h o e] ++ T);
+                              apply Permutation_app_head, Hp|].
+      rewrite app_assoc. apply matched_app; [|exact Hb].
+      unfold tids_obatch at 1. cbn [obo_header obo_entries obo_opts].
+      set (o' := omerge (obo_opts b) o).
+      eapply matched_perm_r.
+      { apply Permutation_sym. apply Permutation_map, Permutation_map, tm_set_perm, Hn. }
+      cbn [map snd app]. apply matched_cons.
+      * split; [cbn [fst tag]; unfold mkid; now rewrite Hh|]. cbn [snd tag]. apply osub_merge_r.
+      * unfold tids_obatch in Ha. revert Ha. apply matched_map_r_mono.
+        intros a x [H1 H2]. split; [exact H1|]. cbn [snd tag] in *.
+        eapply osub_trans; [exact H2|apply osub_merge_l].
+    + cbn [tids_obatches flat_map]. fold (tids_obatches r (place_o h o e rest)).
+      eapply matched_perm_l with (l1 := la ++ tag r h o e :: lb).
+      { eapply Permutation_trans; [apply Permutation_sym, Permutation_middle|].
+        apply perm_skip, Permutation_sym, Hp. }
+      apply matched_app; [exact Ha|]. apply IH, Hb.
+Qed.
+
+Lemma add_batch_o_matched r fopts ib bs : forall T,
+  matched tle T (tids_obatches r bs) ->
+  matched tle (tids_ibatch r fopts ib ++ T) (tids_obatches r (add_batch_o fopts bs ib)).
+Proof.
+  unfold add_batch_o, tids_ibatch. generalize (batch_in_opts fopts ib) as o.
+  generalize (ib_header (ibo_batch ib)) as h. intros h o. revert bs.
+  induction (ib_entries (ibo_batch ib)) as [|e es IH]; intros bs T HT; cbn [fold_left map app].
+  - exact HT.
+  - eapply matched_perm_l; [apply Permutation_sym, Permutation_middle|].
+    apply IH. now apply place_o_matched.
+Qed.
+
+Lemma add_batches_o_matched r fopts ibs bs : forall T,
+  matched tle T (tids_obatches r bs) ->
+  matched tle (flat_map (tids_ibatch r fopts) ibs ++ T) (tids_obatches r (fold_left (add_batch_o fopts) ibs bs)).
+Proof.
+  revert bs. induction ibs as [|ib ibs IH]; intros bs T HT; cbn [fold_left flat_map app].
+  - exact HT.
+  - eapply matched_perm_l with (l1 := flat_map (tids_ibatch r fopts) ibs ++ tids_ibatch r fopts ib ++ T).
+    { rewrite !app_assoc. apply Permutation_app_tail, Permutation_app_comm. }
+    apply IH. now apply add_batch_o_matched.
+Qed.
+
+Lemma same_route_o_eq o f : same_route_o o f = true -> ofo_route o = fo_route f.
+Proof.
+  unfold same_route_o, ofo_route, fo_route. intros H. apply andb_prop in H as [H1 H2].
+  apply bytes_eqb_eq in H1, H2. congruence.
+Qed.
+
+Lemma same_route_o_false o f : same_route_o o f = false -> ofo_route o <> fo_route f.
+Proof.
+  unfold same_route_o, ofo_route, fo_route. intros H E. injection E as E1 E2.
+  rewrite <- E1, <- E2 in H. assert (T : forall x, bytes_eqb x x = true) by (intros x; now apply bytes_eqb_eq).
+  now rewrite !T in H.
+Qed.
+
+Lemma add_to_o_route o f : ofo_route (add_to_o o f) = ofo_route o.
+Proof. reflexivity. Qed.
+
+Lemma add_to_o_matched o f T :
+  ofo_route o = fo_route f -> matched tle T (tids_ofile o) ->
+  matched tle (tids_ifile f ++ T) (tids_ofile (add_to_o o f)).
+Proof.
+  intros Hr HT. unfold tids_ofile, tids_ifile. rewrite add_to_o_route. cbn [add_to_o ofo_batches].
+  rewrite <- Hr. now apply add_batches_o_matched.
+Qed.
+
+Lemma add_file_o_matched st f : forall T,
+  matched tle T (tids_state st) -> matched tle (tids_ifile f ++ T) (tids_state (add_file_o st f)).
+Proof.
+  induction st as [|o rest IH]; intros T HT; cbn [add_file_o].
+  - cbn in HT. apply matched_nil_inv in HT. subst T. cbn [tids_state flat_map]. rewrite (app_nil_r (tids_ofile _)).
+    apply add_to_o_matched; [reflexivity|]. apply matched_nil.
+  - cbn [tids_state flat_map] in HT. fold (tids_state rest) in HT.
+    apply matched_app_inv_r in HT as (la & lb & Hp & Ha & Hb).
+    destruct (same_route_o o f) eqn:Hs; cbn [tids_state flat_map].
+    + fold (tids_state rest).
+      eapply matched_perm_l; [apply Permutation_sym, Permutation_app_head, Hp|].
+      rewrite app_assoc. apply matched_app; [|exact Hb].
+      apply add_to_o_matched; [now apply same_route_o_eq|exact Ha].
+    + fold (tids_state (add_file_o rest f)).
+      eapply matched_perm_l with (l1 := la ++ tids_ifile f ++ lb).
+      { eapply Permutation_trans; [|apply Permutation_sym, Permutation_app_head, Hp].
+        rewrite !app_assoc. apply Permutation_app_tail, Permutation_app_comm. }
+      apply matched_app; [exact Ha|]. now apply IH.
+Qed.
+
+Lemma add_files_o_matched fs st : forall T,
+  matched tle T (tids_state st) -> matched tle (tids_in fs ++ T) (tids_state (fold_left add_file_o fs st)).
+Proof.
+  revert st. induction fs as [|f fs IH]; intros st T HT; cbn [fold_left tids_in flat_map app].
+  - exact HT.
+  - fold (tids_in fs).
+    eapply matched_perm_l with (l1 := tids_in fs ++ tids_ifile f ++ T).
+    { rewrite !app_assoc. apply Permutation_app_tail, Permutation_app_comm. }
+    apply IH. now apply add_file_o_matched.
+Qed.
+
+Lemma build_state_o_matched fs : matched tle (tids_in fs) (tids_state (build_state_o fs)).
+Proof.
+  unfold build_state_o. destruct fs as [|f0 fs']; [apply matched_nil|].
+  rewrite <- (app_nil_r (tids_in (f0 :: fs'))). apply add_files_o_matched. cbn. apply matched_nil.
+Qed.
+
+(* ---------------------------------------------------------------- convertToFiles *)
+
+Lemma tids_rbatches_app r a b : tids_rbatches r (a ++ b) = tids_rbatches r a ++ tids_rbatches r b.
+Proof. unfold tids_rbatches. apply flat_map_app. Qed.
+
+Lemma tids_out_app a b : tids_out (a ++ b) = tids_out a ++ tids_out b.
+Proof. unfold tids_out. apply flat_map_app. Qed.
+
+Lemma tids_rbatches_renumber r bs seq : tids_rbatches r (renumber_o seq bs) = tids_rbatches r bs.
+Proof.
+  revert seq. induction bs as [|b rest IH]; intros seq; cbn [renumber_o tids_rbatches flat_map]; [reflexivity|].
+  fold (tids_rbatches r (renumber_o (seq + 1) rest)). fold (tids_rbatches r rest). rewrite IH.
+  destruct (rbo_number b <=? 1); reflexivity.
+Qed.
+
+Lemma tids_close_file o fopts bs out :
+  tids_out (close_file_o o fopts bs out) = tids_out out ++ tids_rbatches (ofo_route o) bs.
+Proof.
+  unfold close_file_o. destruct bs as [|b rest].
+  - cbn. now rewrite app_nil_r.
+  - rewrite tids_out_app. cbn [tids_out flat_map]. rewrite app_nil_r.
+    unfold tids_rfile, create_file_o. cbn [rfo_batches].
+    change (rfo_route (mkRFO (ofo_origin o) (ofo_dest o) (ofo_hid o) fopts ?x)) with (ofo_route o).
+    now rewrite tids_rbatches_renumber.
+Qed.
+
+Lemma tids_close_batch r hdr bo s :
+  tids_rbatches r (close_batch_o hdr bo s) = tids_rbatches r (co_file s) ++ map (tag r hdr bo) (co_bent s).
+Proof.
+  unfold close_batch_o. destruct (co_bent s) as [|e es] eqn:He.
+  - cbn. now rewrite app_nil_r.
+  - rewrite tids_rbatches_app. cbn [tids_rbatches flat_map]. rewrite app_nil_r. reflexivity.
+Qed.
+
+Definition tids_cstate (o : ofileo) (hdr : header) (bo : vopts) (s : cstateo) : list tident :=
+  tids_out (co_out s) ++ tids_rbatches (ofo_route o) (co_file s) ++ map (tag (ofo_route o) hdr bo) (co_bent s).
+
+Lemma step_entry_o_tids c M o hdr bo s e :
+  tids_cstate o hdr bo (step_entry_o c M o hdr bo s e) = tids_cstate o hdr bo s ++ [tag (ofo_route o) hdr bo e].
+Proof.
+  unfold step_entry_o, tids_cstate. destruct (exceeds c M (co_L s) (co_D s) e); cbn [co_out co_file co_bent].
+  - rewrite tids_close_file, tids_close_batch. cbn. now rewrite <- !app_assoc.
+  - rewrite map_app. cbn. now rewrite <- !app_assoc.
+Qed.
+
+Lemma fold_step_entry_o_tids c M o hdr bo es s :
+  tids_cstate o hdr bo (fold_left (step_entry_o c M o hdr bo) es s)
+  = tids_cstate o hdr bo s ++ map (tag (ofo_route o) hdr bo) es.
+Proof.
+  revert s. induction es as [|e es IH]; intros s; cbn [fold_left map].
+  - now rewrite app_nil_r.
+  - rewrite IH, step_entry_o_tids, <- app_assoc. reflexivity.
+Qed.
+
+Definition tids_closed (o : ofileo) (s : cstateo) : list tident :=
+  tids_out (co_out s) ++ tids_rbatches (ofo_route o) (co_file s).
+
+Lemma step_batch_o_tids c M o s b :
+  tids_closed o (step_batch_o c M o s b) = tids_closed o s ++ tids_obatch (ofo_route o) b.
+Proof.
+  unfold step_batch_o, tids_closed. cbn [co_out co_file].
+  rewrite tids_close_batch.
+  pose proof (fold_step_entry_o_tids c M o (obo_header b) (obo_opts b) (map snd (obo_entries b))
+                (mkCO (co_out s) (co_fopts s) (co_file s) [] (co_L s + 2) (co_D s) (co_bn s + 1))) as H.
+  unfold tids_cstate in H. cbn [co_out co_file co_bent map] in H. rewrite app_nil_r in H.
+  rewrite H. unfold tids_obatch. now rewrite <- app_assoc.
+Qed.
+
+Lemma fold_step_batch_o_tids c M o bs s :
+  tids_closed o (fold_left (step_batch_o c M o) bs s) = tids_closed o s ++ tids_obatches (ofo_route o) bs.
+Proof.
+  revert s. induction bs as [|b bs IH]; intros s; cbn [fold_left tids_obatches flat_map].
+  - now rewrite app_nil_r.
+  - fold (tids_obatches (ofo_route o) bs). rewrite IH, step_batch_o_tids, <- app_assoc. reflexivity.
+Qed.
+
+Lemma step_file_o_tids c M acc o :
+  tids_out (fst (step_file_o c M acc o)) = tids_out (fst acc) ++ tids_ofile o.
+Proof.
+  unfold step_file_o. cbn [fst]. rewrite tids_close_file.
+  match goal with |- tids_out (co_out ?s1) ++ tids_rbatches _ (co_file ?s1) = _ =>
+    change (tids_closed o s1 = tids_out (fst acc) ++ tids_ofile o) end.
+  rewrite fold_step_batch_o_tids. unfold tids_closed. cbn [co_out co_file]. cbn [tids_rbatches flat_map].
+  now rewrite app_nil_r.
+Qed.
+
+Lemma fold_step_file_o_tids c M st acc :
+  tids_out (fst (fold_left (step_file_o c M) st acc)) = tids_out (fst acc) ++ tids_state st.
+Proof.
+  revert acc. induction st as [|o st IH]; intros acc; cbn [fold_left tids_state flat_map].
+  - now rewrite app_nil_r.
+  - fold (tids_state st). rewrite IH, step_file_o_tids, <- app_assoc. reflexivity.
+Qed.
+
+(* every output batch carries exactly the options of the stored batch it was cut from *)
+Lemma convert_o_tids c st : tids_out (convert_o c st) = tids_state st.
+Proof. unfold convert_o. rewrite fold_step_file_o_tids. reflexivity. Qed.
+
+(* conservation with options: input and output entries correspond one-to-one; the output
+   batch of an entry carries at least the options its input batch was validated with *)
+Lemma merge_o_opts_union fs c : matched tle (tids_in fs) (tids_out (merge_files_o fs c)).
+Proof. unfold merge_files_o. rewrite convert_o_tids. apply build_state_o_matched. Qed.
